@@ -226,6 +226,8 @@ class Engine:
             elif isinstance(v, VSeq):
                 p.assume(T.neg(T.Mem(v.term, r)))
         p.schemas.extend(self.freshness_schemas(r, p.st, container=(kind == "container")))
+        if kind == "container":
+            p.st.write("selems", r, z3.Empty(T.SSeq))       # same default as contracts.OutcomeBuilder.fresh
         if kind == "obj":
             # a new instance has no dynamic attributes and an empty memo until someone sets them
             p.st.write_where("dyn_has", lambda a, r=r: (T.eq(a[0], r), z3.BoolVal(False)))
@@ -236,7 +238,6 @@ class Engine:
     def new_list(self, p: Path, seq, elem_cname=None, name="list"):
         r = self.alloc(p, self.ct.Other, "container", name)
         p.st.write("elems", r, seq)
-        p.st.write("selems", r, z3.Empty(T.SSeq))
         return VList(r, elem_cname)
 
     def new_set(self, p: Path, elem_cname=None, name="set"):
